@@ -678,13 +678,18 @@ pub fn run_c14(ctx: &mut Ctx) {
             let mut a = Allocator::new();
             let (lo, hi) = (total * c / chunks, total * (c + 1) / chunks);
             for v in lo..hi {
+                if ctx.miri && len == 2 && v % 61 != 0 {
+                    continue; // the interpreter layer samples the two-byte strings
+                }
                 let bytes: Vec<u8> = (0..len).map(|k| (v >> (8 * (len - 1 - k))) as u8).collect();
                 exhaustive_bytes(ctx, &mut a, &bytes);
                 if a.atom_count() > 30_000_000 {
                     a = Allocator::new();
                 }
             }
-            ctx.add("exhaustive_byte_strings", hi - lo);
+            if !(ctx.miri && len == 2) {
+                ctx.add("exhaustive_byte_strings", hi - lo);
+            }
         }
     }
     // all integers in [-70000, 70000] through the four constructors
@@ -710,6 +715,9 @@ pub fn run_c14(ctx: &mut Ctx) {
         if ctx.want(cid) {
             let mut a = Allocator::new();
             for k in 0..=512u32 {
+                if ctx.miri && k % 37 != 0 {
+                    continue;
+                }
                 for d in [-1i32, 0, 1] {
                     let v = (BigInt::from(1) << k) + d;
                     check_int(ctx, &mut a, v.clone());
